@@ -198,7 +198,7 @@ PROPS['C19'] = {
     'verus': ['c19_minmax'],
     'kani_extra': ['--no-memory-safety-checks', '--no-overflow-checks', '--no-assertion-reach-checks'],
     'kani': [
-        ('geo', 'c19.rs', r'^c19_k_(point_line_rect_triangle|triangle_map_main|triangle_map_finding_reflection|min_polygon_counts|min_polygon_map)$', 'bounded', 'quick'),
+        ('geo', 'c19.rs', r'^c19_k_(point_line_rect_triangle|triangle_map_main|triangle_map_finding_reflection|min_polygon_counts|min_polygon_map|min_polygon_try_map_error_in_hole|min_polygon_try_map_error_in_shell|min_polygon_try_map_ok)$', 'bounded', 'quick'),
         ('geo', 'c19.rs', r'^c19_k_linestring$', 'bounded', 'thorough'),
     ],
     'twins': {'C19.V.get_min_max': r'^c19_k_point_line_rect_triangle'},
@@ -300,13 +300,13 @@ PROPS['C15'] = {
     'verus': [],
     'kani_extra': ['--no-memory-safety-checks', '--no-overflow-checks', '--no-assertion-reach-checks'],
     'kani': [
-        ('geo', 'c15.rs', r'^c15_k_(line_interpolation|densify_linestring_)', 'bounded', 'quick'),
+        ('geo', 'c15.rs', r'^c15_k_(line_interpolation|densify_linestring_|line_locate_point)', 'bounded', 'quick'),
         ('geo', 'c15.rs', r'^c15_k_linestring_interpolation$', 'bounded', 'thorough'),
     ],
     'trusted': ['the generic interpolation / densification code is instantiated with an ABSTRACT exact metric on the x-axis (AxisMetric): what is decided is the walk / clamping / duality / vertex-preservation logic for every metric space satisfying the trait contracts, not the Euclidean, Haversine, geodesic or rhumb kernels',
                 'bounded: Line (all integer end points in [-8,8], distances on the half-integer grid in [-4,24]); 3-vertex LineString incl. repeated vertices and back-tracking (thorough); densify of a fixed 4-vertex polyline with max in {2,4,16}'],
     'undecided_clauses': [
-        'line_locate_point round trip; rounding behaviour for general f64 ratios; the concrete metric spaces; Polygon / Rect / Triangle densify',
+        'LineString::line_locate_point; rounding behaviour for general f64 ratios; the concrete metric spaces; Polygon / Rect / Triangle densify (Line::line_locate_point IS decided for axis-parallel lattice lines, incl. scale 2^-40)',
     ],
 }
 
